@@ -5,7 +5,7 @@
 
 use crate::exprparse::parse_expr;
 use crate::json::J;
-use crate::net::{Expr, Interp, Net, NetOpts, gen_net};
+use crate::net::{Expr, Interp, NetOpts, gen_net};
 use crate::rng::Rng;
 use crate::runner::{CaseOut, CheckDef, Tier};
 use std::collections::{BTreeMap, BTreeSet};
